@@ -792,6 +792,43 @@ theorem C26_prompt_history (l : Nat) (ops : List Op) (hops : ∀ o ∈ ops, OpOK
     getEpochDataRaw (run l ops) e hdr ≠ .timeout ∧ getConfigData (run l ops) hdr e ≠ .timeout :=
   C26_never_hangs (C26_wf_reachable l ops hops) hok e
 
+/-- **the epoch of a block is counted on its own fork**: when several blocks have number 1, the first slot
+    `GetEpochForBlock` uses is the slot of the queried block itself (number 1) or of the number-1 block that
+    is its ancestor; with a single number-1 block there is only one candidate. -/
+theorem C26_first_slot_own_fork {st : St} {bh s : Nat} (h : retrieveFirst st bh = .ok s) :
+    (∃ x, st.imported.filter (fun x => x.number = 1) = [x] ∧ s = x.slot) ∨
+    ∃ b, getHeader st bh = some b ∧
+      ((b.number = 1 ∧ s = b.slot) ∨
+        ∃ x ∈ st.imported, x.number = 1 ∧ (AncI st x.hash bh ∨ x.hash = bh) ∧ s = x.slot) := by
+  unfold retrieveFirst at h
+  cases hl : st.imported.filter (fun x => x.number = 1) with
+  | nil => simp [hl] at h
+  | cons x t =>
+    cases t with
+    | nil =>
+      simp only [hl, Slot.ok.injEq] at h
+      exact .inl ⟨x, rfl, h.symm⟩
+    | cons y t' =>
+      simp only [hl] at h
+      cases hb : getHeader st bh with
+      | none => simp [hb] at h
+      | some b =>
+        simp only [hb] at h
+        refine .inr ⟨b, rfl, ?_⟩
+        by_cases h1 : b.number = 1
+        · simp only [h1, if_true, Slot.ok.injEq] at h
+          exact .inl ⟨h1, h.symm⟩
+        · simp only [h1, if_false] at h
+          cases hf : (x :: y :: t').find? (fun x => isDesc st x.hash bh == some true) with
+          | none => simp [hf] at h
+          | some z =>
+            simp only [hf, Slot.ok.injEq] at h
+            have hz := List.mem_of_find?_eq_some hf
+            have hzp := List.find?_some hf
+            rw [← hl] at hz
+            have hzm := List.mem_filter.mp hz
+            refine .inr ⟨z, hzm.1, by simpa using hzm.2, isDesc_sound (by simpa using hzp), h.symm⟩
+
 /-! ### the loop before the repair, and concrete (non-vacuous) instances -/
 
 def wA1 : Hdr := { hash := 2, parent := 1, number := 1, slot := 10 }
